@@ -161,6 +161,21 @@ Theorem C18_canon_m_correct_cdom : forall fuel c fx m rl s v bs rl',
 Proof. exact canon_m_correct_cdom. Qed.
 Print Assumptions C18_canon_m_correct_cdom.
 
+(* all outcomes on the proved domain: bytes = canonical form, never a panic *)
+Theorem C18_canon_m_correct_cdom_full : forall fuel c fx m rl s v,
+  all_cfixed fx -> cfg_strict c = true -> msg_ok m -> wf_ptr m s ->
+  (p_valid s = true -> p_kind s = KStruct /\ DataSize (p_size s) mod 8 = 0) ->
+  den true m 0 [] s v -> cdom v = true -> 0 <= rl ->
+  forall r rl', canonicalize c fx fuel m rl s = (r, rl') ->
+  match r with
+  | KOk bs => canon v = Some bs
+  | KErr => True
+  | KPanic => False
+  | KFuel => True
+  end.
+Proof. exact canon_m_correct_cdom_full. Qed.
+Print Assumptions C18_canon_m_correct_cdom_full.
+
 (* the invariant behind it, for every fuel: canonicalPtr / fillCanonicalStruct / canonicalList
    append the canonical words of the object at the end of the single destination segment *)
 Theorem C18_Q_all : forall c fx m, cfg_strict c = true -> all_cfixed fx -> msg_ok m ->
